@@ -268,7 +268,19 @@ pub fn check(s: &'static dyn Proto, c: &Case, st: &mut Stats, _k: &KnownFindings
         &t(3),
         &t(4),
     )
-    .map_err(|e| Fail::new(format!("login start steps failed for the wrong password: {e:?}")))?;
+    ;
+    let bad = match bad {
+        Ok(b) => b,
+        // an over-limit password may be refused by any step that receives it, also an early one
+        Err(_) if pw2.len() > 65535 => {
+            st.eval(1);
+            st.label(format!("mutation:{}", c.mutation.class()));
+            st.label("over-limit password refused before the finish step");
+            st.nontrivial(&(s.meta().name, c));
+            return Ok(());
+        }
+        Err(e) => return Err(Fail::new(format!("login start steps failed for the wrong password: {e:?}"))),
+    };
     st.eval(1);
     match &bad.client {
         Err(PErr::InvalidLogin) => {}
